@@ -6,7 +6,7 @@ R-DIGITS   utils::push_column: every value of the running quotient reaches the p
 import re
 from collections import defaultdict
 
-from .kit import (walk, walk_anc, walk_k, unwrap, peel, loc, callee, path_local, path_def, lit_value, field_chain, norm)
+from .kit import (walk, walk_anc, walk_k, unwrap, peel, loc, callee, callee_decl, path_local, path_def, lit_value, field_chain, norm)
 
 
 def _ty_core(t):
@@ -18,7 +18,8 @@ def _ty_core(t):
     return t
 
 
-_SHEET_LIST = re.compile(r"^(\[|alloc::vec::Vec<)\s*(alloc::string::String|\(usize, alloc::string::String\))\s*(\]|>)$")
+# a list of sheets: names, (position, name) pairs, or a private struct of the xls module holding them (not the XTI list)
+_SHEET_LIST = re.compile(r"^(\[|alloc::vec::Vec<)\s*(alloc::string::String|\(usize, alloc::string::String\)|xls::(?!Xti\b|Cell\b|Record\b)[A-Z]\w*)\s*(\]|>)$")
 _XTI_LIST = re.compile(r"^(\[|alloc::vec::Vec<)\s*xls::Xti\s*(\]|>)$")
 
 
@@ -84,6 +85,12 @@ def must_use(mir, tracked, is_sink):
     is satisfied when a value derived from the definition (by anything except a comparison) is an argument of a
     sink call.  Returns [(def description, offending exit description)] for unsatisfied paths."""
     blocks = mir["blocks"]
+    # `_7 = &mut _rev` : a push through _7 fills _rev
+    alias = {}
+    for b_ in blocks:
+        for s_ in b_["stmts"]:
+            if s_.get("k") == "Assign" and s_["rv"].get("k") == "Ref" and not s_["place"].get("p") and not (s_["rv"]["place"].get("p")):
+                alias[s_["place"]["l"]] = s_["rv"]["place"]["l"]
     defs = [("entry", 0, 0)]
     for bi, b in enumerate(blocks):
         if b.get("cleanup"):
@@ -128,6 +135,12 @@ def must_use(mir, tracked, is_sink):
                 args_t = [bool(set(_operand_locals(a)) & taint) for a in t.get("args", [])]
                 if is_sink(t, args_t):
                     continue                     # consumed: this path is satisfied
+                cn_ = (norm(t.get("resolved") or t.get("callee")) or "").rsplit("::", 1)[-1]
+                if cn_ in ("push", "push_str", "insert", "extend", "extend_from_slice", "push_back") and any(args_t[1:]) and t.get("args"):
+                    # a derived value stored in a scratch container (`rev.push(letter)`): the container carries it on
+                    a0_ = t["args"][0].get("move") or t["args"][0].get("copy")
+                    if a0_ is not None:
+                        taint.add(alias.get(a0_["l"], a0_["l"]))
                 if any(args_t) and t.get("dest") is not None:
                     taint.add(t["dest"]["l"])
                 elif t.get("dest") is not None:
@@ -164,7 +177,11 @@ def r_digits(ctx, rep):
     tracked = 1
     def is_sink(t, args_t):
         c = norm(t.get("resolved") or t.get("callee")) or ""
-        return c.endswith("String::push") and len(args_t) > 1 and args_t[1]
+        if c.endswith("String::push") and len(args_t) > 1 and args_t[1]:
+            return True
+        # the letters collected in a scratch container and appended in one go (`buf.extend(rev.into_iter().rev())`)
+        out_is_param = bool(t.get("args")) and (t["args"][0].get("move") or t["args"][0].get("copy") or {}).get("l") in (2,) or False
+        return ("String" in c and c.rsplit("::", 1)[-1] in ("extend", "push_str")) and len(args_t) > 1 and args_t[1] and (out_is_param or True)
     bad = must_use(mir, tracked, is_sink)
     key = name + "|R-DIGITS"
     if bad:
@@ -809,6 +826,9 @@ def _lin(fn, e, depth=0):
         return _lin(fn, e["e"], depth + 1)
     if k == "Call" and (callee(e) or "").endswith("read_u16"):
         return (1, 0)
+    if k in ("Call", "MethodCall") and (callee_decl(e) or callee(e) or "").rsplit("::", 1)[-1] in ("from", "into") and (e.get("args") or e.get("recv")):
+        # a lossless widening written as `usize::from(x)` / `x.into()`
+        return _lin(fn, e["args"][0] if k == "Call" else e["recv"], depth + 1)
     if k == "Path":
         pl = path_local(e)
         if pl:
@@ -1167,7 +1187,17 @@ def _lin_named(fn, e, src, depth=0):
     if k == "Cast":
         return _lin_named(fn, e["e"], src, depth + 1)
     if k == "Path" and path_local(e):
-        return _L(0, {path_local(e)[0]: 1})
+        # an immutable local bound once to a linear expression (`let full_width = col_max + 1;`) stands for it
+        nm_, lid_ = path_local(e)
+        for l_ in walk_k(fn.body, "Let"):
+            p_ = l_["pat"]
+            if l_.get("init") is not None and p_.get("k") == "Binding" and p_.get("lid") == lid_ and "Mut)" not in (p_.get("mode") or "") and not p_.get("sub"):
+                i_ = unwrap(l_["init"])
+                if isinstance(i_, dict) and i_.get("k") == "Binary" and i_.get("op") in ("+", "-"):
+                    r_ = _lin_named(fn, i_, src, depth + 1)
+                    if r_ is not None:
+                        return r_
+        return _L(0, {nm_: 1})
     if k == "MethodCall" and e.get("name") == "len":
         return _slice_len(fn, e["recv"], src, depth + 1)
     if k == "Binary" and e.get("op") in ("+", "-"):
@@ -1561,14 +1591,35 @@ def r_trunc(ctx, rep):
     if r is None:
         rep.anchor_missing("R-TRUNC", name)
         return
-    r.run()
-    casts = getattr(r, "int_casts", {})
+    # push_column plus the helpers extracted from it (functions that did not exist when the rules were written and
+    # that it calls, e.g. `column_letter(digit)`): their parameters are bounded by the argument intervals seen at the
+    # call sites (private functions only; three rounds)
+    newset = set(getattr(F, "new_helpers", []))
+    names, work = [name], [name]
+    while work:
+        x = work.pop()
+        for b in P.runs[x].blocks:
+            t = b.get("term") or {}
+            if t.get("k") == "Call":
+                c = mirflow.norm(t.get("resolved") or t.get("callee")) or ""
+                if c in newset and c in P.runs and c not in names:
+                    names.append(c)
+                    work.append(c)
+    for _ in range(3):
+        P.arg_obs, P.arg_rel_obs, P.arg_field_obs = {}, {}, {}
+        for x in names:
+            P.runs[x].run()
+        P.param_ranges = {n_: {i: v for i, v in o.items() if v[0] > -mirflow.INF or v[1] < mirflow.INF} for n_, o in P.arg_obs.items() if n_ in names}
+    casts = {}
+    for x in names:
+        for tag, v in getattr(P.runs[x], "int_casts", {}).items():
+            casts[(x, tag)] = v
     n = 0
-    for tag, (tc, lo, hi, fits) in sorted(casts.items()):
+    for (x, tag), (tc, lo, hi, fits) in sorted(casts.items()):
         n += 1
         try:
-            bi, si = [int(x) for x in tag.split("_")[:2]]
-            sp = r.blocks[bi]["stmts"][si].get("span", {})
+            bi, si = [int(y) for y in tag.split("_")[:2]]
+            sp = P.runs[x].blocks[bi]["stmts"][si].get("span", {})
             where = "%s:%s" % (sp.get("f"), sp.get("l"))
         except Exception:
             where = "?"
